@@ -33,7 +33,7 @@ BASE_WEIGHTS = {
 }
 PROFILES = {
     "C01": {},
-    "C02": {"rm_parent": 6, "move": 7, "copy": 8, "close_reopen": 6, "move_data": 6, "copy_extent": 5, "pg_add": 6},
+    "C02": {"rm_parent": 6, "rm_ws": 8, "set_flag": 6, "move": 7, "copy": 8, "close_reopen": 6, "move_data": 6, "copy_extent": 5, "pg_add": 6},
     "C05": {"rm_ws": 12, "rm_parent": 9, "pg_add": 8, "pg_rm": 4, "pg_new": 5, "lookup": 6, "copy": 4, "set_flag": 5},
     "C06": {"mk_dup": 8, "copy": 10, "rm_ws": 6, "rm_parent": 5, "lookup": 4},
     "C09": {"observe": 4, "list": 4, "type_edit": 6, "retype": 8, "copy": 9},
@@ -593,6 +593,18 @@ class World:
         ent = self.ent(h, uid)
         arr = build.np_values("text" if single else dkind, values)
 
+        if expect == "ok" and length == n and isinstance(arr, np.ndarray) and arr.dtype.kind in "fiub" and vr.random() < 0.3:
+            # read-modify-assign idiom: the array handed out by the getter is edited in place and assigned back
+            try:
+                cur = ent.values
+            except Exception:  # pylint: disable=broad-except
+                cur = None
+            if isinstance(cur, np.ndarray) and cur.shape == arr.shape and cur.dtype.kind == arr.dtype.kind and cur.flags.writeable and not np.array_equal(cur, arr, equal_nan=cur.dtype.kind == "f"):
+                cur[...] = arr
+                arr = cur
+                self.sim.probe("values_edited_in_place")
+            del cur
+
         def assign():
             ent.values = arr
 
@@ -650,7 +662,11 @@ class World:
 
     def gen_set_flag(self, rng, h):
         t = self.target(rng, h, "entity", lambda r: not r.get("concat"))
-        return None if t is None else {"t": t, "flag": rng.choice(snapshot.FLAGS), "val": rng.random() < 0.5}
+        if t is None:
+            return None
+        if rng.random() < 0.3:
+            return {"t": t, "flag": "allow_delete", "val": rng.random() < 0.3}      # protected entities (and their ancestors' removal)
+        return {"t": t, "flag": rng.choice(snapshot.FLAGS), "val": rng.random() < 0.5}
 
     def do_set_flag(self, op):
         h = op["h"]
@@ -835,7 +851,16 @@ class World:
         return all(model.recs[u]["flags"]["allow_delete"] for u in model.subtree(uid))
 
     def _rm_target(self, rng, h):
-        """Removal target: any entity; in a third of the cases a data set that sits in a property group (if there is one)."""
+        """Removal target: any entity; in a third of the cases a data set that sits in a property group (if there is one);
+        sometimes the container of a protected entity."""
+        model = self.h[h].model
+        if rng.random() < 0.3:
+            guarded = {model.recs[u]["parent"] for u, r in model.recs.items() if not r["flags"]["allow_delete"] and r.get("parent") in model.recs}
+            guarded |= {model.recs[p]["parent"] for p in guarded if model.recs[p].get("parent") in model.recs}
+            guarded.discard(model.root)
+            t = self.target(rng, h, "entity", lambda r: r["uid"] in guarded and r["flags"]["allow_delete"])
+            if t is not None:
+                return t
         if rng.random() < 0.35:
             model = self.h[h].model
             grouped = {d for rec in model.recs.values() for pg in (rec.get("pgs") or {}).values() for d in pg["props"]}
@@ -857,7 +882,11 @@ class World:
         rec = model.recs[uid]
         refuse = not rec["flags"]["allow_delete"]
         if not refuse and not self._deletable(model, uid):
-            return "skipped"   # a protected descendant: outcome not specified by the property
+            # a protected descendant: the removal is refused part-way.  Which descendants are gone by then is not stated by
+            # any property; the file must stay valid and consistent with the live tree, so the model adopts what LIVE shows.
+            if rec.get("concat") or rec.get("concat_group") or any(model.recs[u].get("concat") for u in model.subtree(uid)):
+                return "skipped"
+            return self._rm_partial(op, h, uid)
         self.touch(h, uid)
         ent = self.ent(h, uid)
         ws = self.h[h].ws
@@ -888,6 +917,32 @@ class World:
             model.__dict__.setdefault("removed_entry", {})[g] = entry
         self.sim.probe("rm_" + entry)
         return gone
+
+    def _rm_partial(self, op, h, uid):
+        model = self.h[h].model
+        ws = self.h[h].ws
+        subtree = list(model.subtree(uid))
+        self.touch(h, *subtree)
+        ent = self.ent(h, uid)
+        _, outcome = self.call(lambda: ws.remove_entity(ent), "either", what="rm_ws (protected descendant)")
+        del ent
+        self.sim.probe("rm_protected_descendant")
+        # adopt: whatever is no longer reachable live is removed from the model (leaves first)
+        depth = {u: 0 for u in subtree}
+        for u in subtree:
+            p, d = model.recs[u]["parent"], 0
+            while p in depth:
+                d += 1
+                p = model.recs[p]["parent"]
+            depth[u] = d
+        for u in sorted(subtree, key=lambda x: -depth[x]):
+            if u in model.recs and ws.get_entity(uid_obj(u))[0] is None:
+                gone = model.remove(u)
+                for g in gone:
+                    model.zombies[g]["group"] = u
+                    model.zombies[g]["entry"] = "ws"
+                    model.__dict__.setdefault("removed_entry", {})[g] = "ws"
+        return "partial:" + outcome.split(":")[0]
 
     def gen_rm_parent(self, rng, h):
         t = self._rm_target(rng, h)
